@@ -461,11 +461,13 @@ def c12(ctx):
     run_hash(ctx, builds, ["--mode", "hmac", "--p1", K, "--p3", NR], ctx.q(8, 16), "h_hash-m")
     if ctx.thorough:
         run_hash_huge(ctx, builds[0], [1])
+    run_special(ctx, "h_hash.c", build_set(ctx, ["prod", "gcc-O2", "clang-O2"]), ["--mode", "special", "--p1", 2], 4, "h_hash-sp")
     abi.ilp32_monitor(ctx, ['hmac'])
     ctx.rule = ("every key length 0..K (NULL for 0 in half the cases) x message lengths {0,1,15,16,17,31,32,33,63,64,65,127,128,200} + random "
                 "(key <= 300, message <= 4096); per case: one-shot vs RFC 2104 model, incremental with random chunking and the key at a different "
                 "address for finalize, reinit after an abandoned prefix, reinit after finalize; thorough: one-shot HMAC of 2^32+37 bytes vs the same bytes in updates below 2^32. class = (keylen, mlen, byte class).")
     ctx.rule += ' Supplementary ILP32 monitor: the portable sources compiled with gcc/clang -m32 (4-byte size_t, pointers and long; freestanding runtime, every buffer against a PROT_NONE page) and the production archive run the same deterministic case list (harness/h_abi.c, section hmac) as the model; the outputs are compared line by line.'
+    ctx.rule += ' Corpus replay: (key, message) pairs whose INNER digest has a rare word pattern (model/pinned/special.txt, found with the model alone), one-shot, byte-wise, and with the state re-keyed afterwards.'
     ctx.exhaustive = False
 
 
@@ -629,8 +631,8 @@ def c18(ctx):
     jobs = []
     for name, cfg, pi in variants:
         cfgd = ctx.make_config(name, cfg)
-        for cc, fl, tag in (("gcc", ["-O2"], ""), ("clang", ["-O3"], "-clangO3"), ("gcc", ["-O2", "-funsigned-char"], "-uchar"), ("gcc", asan_flags("gcc"), "-asan")) + (
-                (("clang", msan_flags(), "-msan"), ("gcc", ["-O0"], "-gccO0"), ("gcc", ["-Os", "-std=c99", "-w"], "-gccOs-c99")) if ctx.thorough else ()):
+        for cc, fl, tag in (("gcc", ["-O2"], ""), ("clang", ["-O3"], "-clangO3"), ("gcc", ["-O2", "-funsigned-char"], "-uchar"), ("gcc", asan_flags("gcc"), "-asan"), ("clang", msan_flags(), "-msan")) + (
+                (("gcc", ["-O0"], "-gccO0"), ("gcc", ["-Os", "-std=c99", "-w"], "-gccOs-c99")) if ctx.thorough else ()):
             lib = ctx.lib("trng-" + name + tag, cc, fl, cfg=cfgd, pre_include=pi)
             hfl = fl if tag in ("-asan", "-msan") else []
             exe = ctx.harness("h_trng-" + name + tag, "h_trng.c", lib, cc=cc, flags=hfl, ldflags=["-ldl"])
@@ -704,7 +706,7 @@ def c18(ctx):
                 "variants of the entropy source (getrandom(), getentropy(), raw syscall(SYS_getrandom), /dev/urandom open/read/close; selected by scratch "
                 "config.h files, ASan/UBSan twins, thorough: MSan) and for the cmake-built production object: ALL prefixes of length <= K over {EINTR, EAGAIN} "
                 "(/dev/urandom: also short read, K <= 6) x end in {success, EPERM, ENOSYS, EFAULT, EIO, EINVAL (, open fails)}, plus all-EINTR prefixes of 1000 "
-                "and 100000. Oracle: exact OS-call count (termination), status, bytes == OS bytes / zeroed defined buffer, fd census, open/close balance; every "
+                "and 100000 (thorough: 2^24+5, 2^32+5), and every errno value 1..133 as the permanent error (alone and after one EINTR); errno is preset to EINTR / EAGAIN / 0 / EPERM before each script; nanosleep/sleep/usleep are scripted (a pause of an hour or more between attempts is reported). Oracle: exact OS-call count (termination), status, bytes == OS bytes / zeroed defined buffer, fd census, open/close balance; every "
                 "5th script group goes through tinyjambu_prng_init and the shadow DRBG. End to end: production .so under strace -e inject (INJECTED lines prove firing). "
                 "class = (script index, end, via_prng).")
     ctx.exhaustive = True
